@@ -48,7 +48,7 @@ func runC03(k int, rng *Rng) CaseResult {
 	cfg := genConfig(rng, GenOpts{UniqueBias: 0.45, CaseBias: 0.5})
 	if len(cfg.uniquePathsSorted()) == 0 {
 		c := cfg.Fields["K"]
-		c.Index, c.Unique = true, true
+		c.Index, c.Unique, c.UniqueOnly = true, true, rng.P(0.4)
 		cfg.Fields["K"] = c
 	}
 	clockNewCase(clockModeFor(cfg))
